@@ -156,7 +156,13 @@ func findFunc(prog *ssa.Program, qual string) *ssa.Function {
 
 func main() {
 	specPath := flag.String("spec", "", "run spec (json)")
+	self := flag.Int("selftest", 0, "cross-check folding / evaluation / solver semantics on N random cases and exit")
 	flag.Parse()
+	if *self > 0 {
+		selfTest("z3-new", *self)
+		selfTest("z3", *self/4)
+		return
+	}
 	debug.SetGCPercent(800)
 	if pf := os.Getenv("GOSYM_CPUPROFILE"); pf != "" {
 		f, _ := os.Create(pf)
